@@ -5,6 +5,7 @@ package main
 
 import (
 	"fmt"
+	"go/constant"
 	"go/types"
 	"regexp"
 	"strings"
@@ -117,11 +118,24 @@ func (x *Exec) splitExact(s *State, site ssa.Instruction, str, sep *Term, n int6
 	}
 	lv := Var(x.siteTag(site)+".split$n", SInt)
 	s.assume(Eq(lv, ln))
+	// join(SplitN(s, sep, n), sep) == s, stated per possible length
+	for k := int64(1); k <= n; k++ {
+		var parts []*Term
+		for j := int64(0); j < k; j++ {
+			if j > 0 {
+				parts = append(parts, sep)
+			}
+			parts = append(parts, Select(arr, Int(j)))
+		}
+		s.assume(Implies(Eq(lv, Int(k)), Eq(str, Concat(parts...))))
+	}
 	s.heap[o.id] = &ArrV{Elem: types.Typ[types.String], T: arr}
 	res.Len = lv
 	res.Cap = lv
 	return res
 }
+
+var reOnlyEscapes = regexp.MustCompile("^(\x1b\\[[0-9;]*m)+$")
 
 var reFmtVerb = regexp.MustCompile(`%[-+# 0]*[0-9]*(\.[0-9]+)?[a-zA-Z%]`)
 
@@ -335,6 +349,15 @@ func (x *Exec) libCall(s *State, site ssa.Instruction, fn *ssa.Function, name st
 		x.used(name)
 		x.recvNonNil(s, site, args[0], name)
 		x.absSet(s, args[0], "content", Concat(x.absGet(s, args[0], "content"), T(1)))
+		if name == "(*strings.Builder).WriteString" {
+			// ghost projection `plain`: everything written except values of the
+			// colour types (escape sequences) of package color
+			if !x.isColourValue(site, 1) {
+				x.absSet(s, args[0], "plain", Concat(x.absGet(s, args[0], "plain"), T(1)))
+			} else {
+				x.E.assumeNote("ghost projection plain(sb): writes of color.FgColor/BgColor/Attribute values are the escape sequences the painter adds (all constants of these types are ESC[..m, checked syntactically)")
+			}
+		}
 		k(s, &TupleV{E: []Val{StrLen(T(1)), nilErr()}})
 		return true
 	case "(*strings.Builder).WriteByte", "(*bytes.Buffer).WriteByte":
@@ -342,6 +365,9 @@ func (x *Exec) libCall(s *State, site ssa.Instruction, fn *ssa.Function, name st
 		x.recvNonNil(s, site, args[0], name)
 		b := args[1].(*Term)
 		x.absSet(s, args[0], "content", Concat(x.absGet(s, args[0], "content"), StrFromCode(b)))
+		if name == "(*strings.Builder).WriteByte" {
+			x.absSet(s, args[0], "plain", Concat(x.absGet(s, args[0], "plain"), StrFromCode(b)))
+		}
 		k(s, nilErr())
 		return true
 	case "(*bytes.Buffer).Write":
@@ -365,7 +391,12 @@ func (x *Exec) libCall(s *State, site ssa.Instruction, fn *ssa.Function, name st
 			return true
 		}
 		x.recvNonNil(s, site, args[0], name)
-		k(s, x.absGet(s, args[0], "content"))
+		c := x.absGet(s, args[0], "content")
+		if name == "(*strings.Builder).String" {
+			// the plain projection of the string just built
+			s.assume(Eq(UF("ufs_plain", SString, c), x.absGet(s, args[0], "plain")))
+		}
+		k(s, c)
 		return true
 	case "(*bytes.Buffer).Bytes":
 		x.used(name)
@@ -384,6 +415,9 @@ func (x *Exec) libCall(s *State, site ssa.Instruction, fn *ssa.Function, name st
 		x.used(name)
 		x.recvNonNil(s, site, args[0], name)
 		x.absSet(s, args[0], "content", Str(""))
+		if strings.HasPrefix(name, "(*strings.Builder)") {
+			x.absSet(s, args[0], "plain", Str(""))
+		}
 		k(s, nil)
 		return true
 	case "(*strings.Builder).Grow", "(*bytes.Buffer).Grow":
@@ -706,4 +740,42 @@ func (x *Exec) ghostPrint(s *State, site ssa.Instruction, name string, args []Va
 		cnt = Int(0)
 	}
 	s.ghost["printCalls"] = Add(cnt, Int(1))
+}
+
+// isColourValue: argument i of the call is a conversion from one of the
+// colour types of package color.
+func (x *Exec) isColourValue(site ssa.Instruction, i int) bool {
+	call, ok := site.(ssa.CallInstruction)
+	if !ok {
+		return false
+	}
+	args := call.Common().Args
+	if i >= len(args) {
+		return false
+	}
+	var src ssa.Value
+	switch v := args[i].(type) {
+	case *ssa.ChangeType:
+		src = v.X
+	case *ssa.Convert:
+		src = v.X
+	case *ssa.Const:
+		// a constant consisting only of ANSI SGR escape sequences (the
+		// compiler folds string(color.FgDefault) into such a constant)
+		if v.Value != nil && isStringType(v.Type()) {
+			return reOnlyEscapes.MatchString(constant.StringVal(v.Value))
+		}
+		return false
+	default:
+		return false
+	}
+	nt, ok := src.Type().(*types.Named)
+	if !ok || nt.Obj().Pkg() == nil || nt.Obj().Pkg().Path() != modPath+"/internal/color" {
+		return false
+	}
+	switch nt.Obj().Name() {
+	case "FgColor", "BgColor", "Attribute":
+		return true
+	}
+	return false
 }
